@@ -6,6 +6,8 @@ import (
 	"fmt"
 	"strings"
 	"time"
+
+	"github.com/nats-io/nats.go"
 )
 
 // Package-level errors that can be returned by the library.
@@ -227,7 +229,7 @@ func NewTimeoutError(operation string, timeout time.Duration, err error) *Timeou
 // Permanent errors should not be retried.
 //
 // Permanent errors include:
-//   - Revision mismatch (another leader exists)
+//   - Revision mismatch / wrong last sequence / key exists (another leader exists)
 //   - Key not found
 //   - Permission denied
 //   - Invalid configuration
@@ -263,8 +265,18 @@ func IsPermanentError(err error) bool {
 
 	errMsg := strings.ToLower(err.Error())
 
+	// A failed revision-checked Update and a Create on an existing key are reported
+	// by the NATS client as JetStream API error 10071 ("wrong last sequence: N",
+	// wrapped as "...: key exists" by Create). Another instance owns the record:
+	// retrying cannot succeed.
+	if errors.Is(err, nats.ErrKeyExists) {
+		return true
+	}
+
 	permanentPatterns := []string{
 		"revision mismatch",
+		"wrong last sequence",
+		"key exists",
 		"key not found",
 		"permission denied",
 		"bucket not found",
